@@ -205,7 +205,51 @@ def correspond(ctx: Ctx) -> Result:
 
 
 def replay(ctx: Ctx, data):
-    return None
+    """re-run one read_object of a replay file: rebuild the snapshot from the leaf specs, read the path, compare"""
+    import torch
+    from torchsnapshot import Snapshot, StateDict
+    if "leaves" not in data:
+        return None
+
+    def fix(sp):
+        return tuple(sp) if isinstance(sp, list) and sp and sp[0] in ("tensor", "prim", "obj") else sp
+    leaves = {k: fix(v) for k, v in data["leaves"].items()}
+    state = {k: sg.build(sp, None) for k, sp in leaves.items()}
+    expect = {k: sg.build(sp, None) for k, sp in leaves.items()}
+    root = ctx.scratch("c18r")
+    path = os.path.join(root, "snap")
+    out = None
+    try:
+        with Knobs(data["knobs"]), safe_gc():
+            Snapshot.take(path, {"m": StateDict(state)})
+            want = expect[data["path"].split("/")[-1]]
+            ok, b = data["obj_out"], data["budget"]
+            obj_out = None
+            if isinstance(want, torch.Tensor) and ok == "match":
+                obj_out = torch.zeros(list(want.shape), dtype=want.dtype)
+            elif isinstance(want, torch.Tensor) and ok == "mismatch":
+                obj_out = torch.ones([2] + list(want.shape), dtype=torch.float32)
+            with Recorder() as rec:
+                try:
+                    got = Snapshot(path).read_object(data["path"], obj_out=obj_out, memory_budget_bytes=b)
+                except Exception as e:  # noqa
+                    return Failure(f"C18:read_object-raised:{type(e).__name__}", str(e)[:200], data)
+            d = sg.equal_exact(got, want, data["path"])
+            if d:
+                out = Failure("C18:value-differs", d, data)
+            elif b is not None and isinstance(want, torch.Tensor):
+                for tot, n in rec.max_alive():
+                    if tot > b and n > 1:
+                        out = Failure("C18:inflight-buffers-exceed-budget", f"{tot} bytes alive in {n} buffers (budget {b})", data)
+                        break
+                reads = [e for e in rec.events if e[0] == "read"]
+                esize = sg.ESIZE[str(want.dtype).replace("torch.", "")]
+                size = esize * want.numel()
+                if out is None and len(reads) == 1 and reads[0][3] >= b + esize and size > b + esize:
+                    out = Failure("C18:budget-ignored-single-read-of-whole-tensor", f"one read of {reads[0][3]} bytes under budget {b}", data)
+    finally:
+        shutil.rmtree(root, ignore_errors=True)
+    return out
 
 
 MANIFEST = {
